@@ -467,3 +467,24 @@ Definition good_run (E : env) (h0 : N) (ins : list input) : bool :=
   listen_good E (fst (starts E SFUEL (boot h0 [] 0))) ins.
 
 Definition quorum_positive (E : env) : Prop := forall h, 0 < q_of (c_total (e_cfg E) h).
+
+(* ---------- the boundaries between two calls of the state machine in the live phase ---------- *)
+(* (state of the machine at the boundary, environment inputs not yet consumed) *)
+Definition bstate := (state * list input)%type.
+Fixpoint starts_states (E : env) (fuel : nat) (d : dstate) (rest : list input) : list bstate :=
+  match fuel with
+  | O => []
+  | S n => let '(d1, _, com) := dstep E false d (IStart 0) in
+           (d_sm d1, rest) :: (if com then starts_states E n d1 rest else [])
+  end.
+Fixpoint listen_states (E : env) (d : dstate) (ins : list input) : list bstate :=
+  match ins with
+  | [] => []
+  | i :: rest =>
+      let '(d1, _, com) := dstep E false d i in
+      (d_sm d1, rest) :: (if com then starts_states E SFUEL d1 rest else []) ++
+      listen_states E (if com then fst (starts E SFUEL d1) else d1) rest
+  end.
+Definition life_states (E : env) (h0 : N) (ins : list input) : list bstate :=
+  (init_state h0, ins) :: starts_states E SFUEL (boot h0 [] 0) ins ++
+  listen_states E (fst (starts E SFUEL (boot h0 [] 0))) ins.
